@@ -37,6 +37,9 @@ ASSUMPTIONS = [
 
 CAP = 30
 CREP_EVERY = 4  # every 4th generated machine works on CREP_SPEC
+BIN_EVERY = 5
+BIN_SPEC = {"rules": [["start", ["seq", [["nt", "tag"], ["nt", "val"], ["opt", ["blit", b";".hex()]]]]], ["tag", ["brx", "[ab]+"]],
+                      ["val", ["alt", [["brx", "[0-9]{1,2}"], ["lit", "x"]]]]], "mode": "bin", "alphabet": "ab"}
 CREP_SPEC = {"rules": [["start", ["seq", [["nt", "len"], ["nt", "items"]]]], ["len", ["alt", [["lit", "1"], ["lit", "2"], ["lit", "3"]]]],
                        ["items", ["crep", ["nt", "item"], "int(<len>)"]], ["item", ["alt", [["lit", "a"], ["lit", "b"]]]]],
              "mode": "text", "alphabet": "ab"}
@@ -63,6 +66,8 @@ class World:
         from fandango.language.grammar import ParsingMode
 
         kind, word, start = step[0], step[1], f"<{step[2]}>"
+        if isinstance(word, dict):
+            word = bytes.fromhex(word["b"])  # bytes inputs are stored as {"b": hex}
         k = step[3] if len(step) > 3 else None
         g = f.grammar
         if kind == "first":
@@ -184,6 +189,13 @@ def make_machine(ctx: Any) -> Any:
         @initialize(spec=specgen.grammars({"mode": "text", "max_rules": 3, "regex": "none"}),
                     ambiguous=st.booleans(), edits=st.lists(perturb_strategies(), min_size=2, max_size=2))
         def setup(self, spec: dict[str, Any], ambiguous: bool, edits: list[Any]) -> None:
+            if BIN_EVERY and (len(repr(spec)) + 3 * len(repr(edits))) % BIN_EVERY == 1:
+                # a binary spec with bytes regexes, asked with bytes AND with text inputs (one object serves both)
+                self.spec = BIN_SPEC
+                self.world = World(BIN_SPEC)
+                self.words = [{"b": w.hex()} for w in (b"a1", b"ab12;", b"bx", b"a", b"a1;", b"b7;")] + ["a1", "ab12;", "bx", "a", "b7;"]
+                self.starts = ["start", "tag"]
+                return
             if CREP_EVERY and (len(repr(spec)) + len(repr(edits))) % CREP_EVERY == 0:
                 # a spec with a computed repetition: requests below a hook-in parent and for the inner symbol alone
                 self.spec = CREP_SPEC
